@@ -335,7 +335,7 @@ def note_bytes(enc, typ, name, desc):
     return b
 
 
-def build(cls, enc, secs, segs, rng=None, hdr=None, tables_first=False):
+def build(cls, enc, secs, segs, rng=None, hdr=None, tables_first=False, addr_from_offset=None):
     """Serialise sections (dicts: sname,type,flags,addr,data|None,size,link,info,addralign,entsize) laid out
     sequentially after the program header table; section header table last.  segs: dicts with type, flags,
     align and either 'cover': [section indices] or explicit offset/vaddr/filesz/memsz."""
@@ -365,7 +365,11 @@ def build(cls, enc, secs, segs, rng=None, hdr=None, tables_first=False):
             s["size"] = len(s["data"])
             pos += len(s["data"])
         else:
+            if s["type"] == SHT_NOBITS:
+                pos = (pos + al - 1) // al * al
             s["offset"] = pos if s["type"] == SHT_NOBITS else 0
+        if addr_from_offset is not None and (s["flags"] & SHF_ALLOC):
+            s["addr"] = addr_from_offset + s["offset"]
     if tables_first:
         shoff = shoff_first
         total = pos
@@ -383,6 +387,8 @@ def build(cls, enc, secs, segs, rng=None, hdr=None, tables_first=False):
             al = [s for s in cov if s["flags"] & SHF_ALLOC]
             g["vaddr"] = min(s["addr"] for s in al) if al else 0
             g["memsz"] = (max(s["addr"] + s["size"] for s in al) - g["vaddr"]) if al else g["filesz"]
+            if addr_from_offset is not None and al:
+                g["offset"] = min(s["offset"] for s in al)
             g["paddr"] = g["vaddr"]
         outsegs.append(g)
     im.hdr = dict(type=2, machine=62 if cls == "64" else 3, version=1, entry=0x1000, phoff=EHSIZE[cls] if segs else 0, shoff=shoff,
@@ -479,29 +485,36 @@ def rich_image(rng, cls, enc, nsym=None, tables_first=False):
     es = 16 if cls == "32" else 24
     ptr = 4 if cls == "32" else 8
     S = lambda **k: dict(dict(flags=0, addr=0, size=0, link=0, info=0, addralign=1, entsize=0), **k)
-    secs = [
-        S(sname=b".text", type=SHT_PROGBITS, flags=A | 4, addr=0x1000, data=bytes(rng.getrandbits(8) for _ in range(rng.randint(1, 64))), addralign=16),
-        S(sname=b".dynstr", type=SHT_STRTAB, flags=A, addr=0x3000, data=strtab),                                   # 2
-        S(sname=b".dynsym", type=11, flags=A, addr=0x3100, data=symtab, link=2, info=1, addralign=ptr, entsize=es),    # 3
-        S(sname=b".hash", type=SHT_HASH, flags=A, addr=0x3180, data=sysv, link=3, addralign=4, entsize=4),           # 4
-        S(sname=b".symtab", type=SHT_SYMTAB, data=symtab, link=2, info=1, addralign=ptr, entsize=es),                 # 5
-        S(sname=b".gnu.hash", type=0x6ffffff6, flags=A, addr=0x3200, data=gnu, link=5, addralign=ptr),               # 6
-        S(sname=b".rel.text", type=SHT_REL, data=rel, link=5, info=1, addralign=ptr, entsize=2 * ptr),               # 7
-        S(sname=b".rela.text", type=SHT_RELA, data=rela, link=3, info=1, addralign=ptr, entsize=3 * ptr),            # 8
-        S(sname=b".dynamic", type=SHT_DYNAMIC, flags=A | 1, addr=0x4000, data=dynb, link=2, addralign=ptr, entsize=2 * ptr),  # 9
-        S(sname=b".note.test", type=SHT_NOTE, flags=A, addr=0x4100, data=notes, addralign=4),                        # 10
-        S(sname=b".modinfo", type=SHT_PROGBITS, data=modinfo),                                                       # 11
-        S(sname=b".init_array", type=14, flags=A | 1, addr=0x4200, data=arr, addralign=ptr, entsize=ptr),            # 12
-        S(sname=b".gnu.version", type=0x6fffffff, flags=A, addr=0x4300, data=versym, link=3, addralign=2, entsize=2),  # 13
-        S(sname=b".gnu.version_r", type=0x6ffffffe, flags=A, addr=0x4400, data=verneed, link=2, info=1, addralign=4),  # 14
-        S(sname=b".gnu.version_d", type=0x6ffffffd, flags=A, addr=0x4500, data=verdef, link=2, info=1, addralign=4),   # 15
-        S(sname=b".bss", type=SHT_NOBITS, flags=A | 1, addr=0x5000, data=None, size=rng.choice([0, 16, 4096]), addralign=16),  # 16
-    ]
-    segs = [dict(type=PT_LOAD, flags=5, align=0x1000, cover=[1]),
-            dict(type=PT_LOAD, flags=6, align=0x1000, cover=[2, 3, 4, 6, 9, 10]),
-            dict(type=PT_DYNAMIC, flags=6, align=ptr, cover=[9]),
-            dict(type=PT_NOTE, flags=4, align=4, cover=[10])]
-    return build(cls, enc, secs, segs, rng, tables_first=tables_first)
+    # allocated sections first (their addresses follow their file offsets: addr = 0x10000 + offset), then the rest
+    order = [".text", ".dynstr", ".dynsym", ".hash", ".gnu.hash", ".dynamic", ".note.test", ".init_array", ".gnu.version",
+             ".gnu.version_r", ".gnu.version_d", ".bss", ".symtab", ".rel.text", ".rela.text", ".modinfo"]
+    idx = {n: i + 1 for i, n in enumerate(order)}
+    defs = {
+        ".text": S(type=SHT_PROGBITS, flags=A | 4, data=bytes(rng.getrandbits(8) for _ in range(rng.randint(1, 64))), addralign=16),
+        ".dynstr": S(type=SHT_STRTAB, flags=A, data=strtab),
+        ".dynsym": S(type=11, flags=A, data=symtab, link=idx[".dynstr"], info=1, addralign=ptr, entsize=es),
+        ".hash": S(type=SHT_HASH, flags=A, data=sysv, link=idx[".dynsym"], addralign=4, entsize=4),
+        ".gnu.hash": S(type=0x6ffffff6, flags=A, data=gnu, link=idx[".symtab"], addralign=ptr),
+        ".dynamic": S(type=SHT_DYNAMIC, flags=A | 1, data=dynb, link=idx[".dynstr"], addralign=ptr, entsize=2 * ptr),
+        ".note.test": S(type=SHT_NOTE, flags=A, data=notes, addralign=4),
+        ".init_array": S(type=14, flags=A | 1, data=arr, addralign=ptr, entsize=ptr),
+        ".gnu.version": S(type=0x6fffffff, flags=A, data=versym, link=idx[".dynsym"], addralign=2, entsize=2),
+        ".gnu.version_r": S(type=0x6ffffffe, flags=A, data=verneed, link=idx[".dynstr"], info=1, addralign=4),
+        ".gnu.version_d": S(type=0x6ffffffd, flags=A, data=verdef, link=idx[".dynstr"], info=1, addralign=4),
+        ".bss": S(type=SHT_NOBITS, flags=A | 1, data=None, size=rng.choice([0, 16, 4096]), addralign=16),
+        ".symtab": S(type=SHT_SYMTAB, data=symtab, link=idx[".dynstr"], info=1, addralign=ptr, entsize=es),
+        ".rel.text": S(type=SHT_REL, data=rel, link=idx[".symtab"], info=1, addralign=ptr, entsize=2 * ptr),
+        ".rela.text": S(type=SHT_RELA, data=rela, link=idx[".dynsym"], info=1, addralign=ptr, entsize=3 * ptr),
+        ".modinfo": S(type=SHT_PROGBITS, data=modinfo),
+    }
+    secs = []
+    for n in order:
+        d = defs[n]; d["sname"] = n.encode(); secs.append(d)
+    segs = [dict(type=PT_LOAD, flags=5, align=0x1000, cover=[idx[".text"]]),
+            dict(type=PT_LOAD, flags=6, align=0x1000, cover=[idx[n] for n in order[1:12]]),
+            dict(type=PT_DYNAMIC, flags=6, align=ptr, cover=[idx[".dynamic"]]),
+            dict(type=PT_NOTE, flags=4, align=4, cover=[idx[".note.test"]])]
+    return build(cls, enc, secs, segs, rng, tables_first=tables_first, addr_from_offset=0x10000)
 
 
 # ------------------------------------------------------------------ structure-aware corruption
